@@ -15,7 +15,7 @@ R-C14-5  (syntax) the indentation state ignores trailing spaces and whitespace-o
          is compared only when a non-newline token arrives; pending newlines are re-emitted after the Indent/Dedent tokens.
 """
 import re
-from .common import walk, src, strip, AnchorError, tail_expr
+from .common import walk, src, strip, AnchorError, tail_expr, syn_owner
 from .c11 import parents_map
 from .lexer import LexerModel
 
@@ -94,17 +94,38 @@ def run(chk, facts):
     try:
         fs = syn.one_fn("from_str", mod="parse", impl_of="AST")
         loc = facts.loc_of(fs)
-        flt = [n for n in walk(fs["body"]) if n.get("k") == "mcall" and n["m"] == "filter"]
-        ok = False
-        for fl in flt:
-            s = src(fl["args"][0]).replace(" ", "")
-            if "Token::Comment(_)" in s and (s.count("!") % 2 == 1 or "=>false" in s):
-                ok = True
-        chk.ob("R-C14-1", "from_str:filter-comments", ok, "AST::from_str drops Token::Comment before parsing" if ok else "AST::from_str no longer filters Token::Comment out of the token vector", loc)
-        # the filtered vector is what the iterator is built from
-        li = [n for n in walk(fs["body"]) if n.get("k") == "call" and src(n["f"]) == "LexIterator::new"]
-        ok = len(li) == 1 and src(strip(li[0]["args"][0])).replace(" ", "") == "tokens.iter().peekable()"
-        chk.ob("R-C14-1", "from_str:iterator-over-filtered", ok, "the parser iterates the filtered vector" if ok else "LexIterator::new is no longer built from the filtered `tokens`", loc)
+        # AST::from_str is folded over a small token vector (rules/smalleval.py) with `tokenize` replaced by a fixed stream: what reaches
+        # LexIterator::new must be that stream without its comment tokens, in order - however the filtering is written (filter + collect, a
+        # loop with `continue`, a private helper)
+        from .smalleval import SmallEval, NoEval
+
+        class _Captured(Exception):
+            def __init__(self, v):
+                self.v = v
+
+        def lex(kind, i):
+            return {"__struct__": "Lex", "token": ("variant", "Token::" + kind, [("sym", i)]), "pos": ("sym", "pos%d" % i)}
+        stream = [lex("Id", 0), lex("Comment", 1), lex("NL", 2), lex("Comment", 3), lex("Int", 4), lex("Comment", 5)]
+
+        def capture(arg):
+            raise _Captured(arg)
+        local = {f_["name"]: f_ for f_ in syn.fns if f_["mod"] == fs["mod"] and f_.get("impl_of") is None and f_.get("body")}
+        ev = SmallEval(local_fns=local, funcs={"tokenize": lambda inp: ("Ok", ("list", list(stream))), "LexIterator::new": capture})
+        ok, why_f = False, ""
+        try:
+            ev.call(fs, [("sym", "input")])
+            why_f = "LexIterator::new is not reached"
+        except _Captured as c_:
+            got = c_.v[1] if isinstance(c_.v, tuple) and c_.v and c_.v[0] == "list" else None
+            want = [t_ for t_ in stream if t_["token"][1] != "Token::Comment"]
+            ok = got == want
+            why_f = "" if ok else ("the parser is handed " + (", ".join(t_["token"][1].split("::")[-1] for t_ in got) if got is not None else "something that is not the token vector") +
+                                   " for the stream Id, Comment, NL, Comment, Int, Comment")
+        except NoEval as ex:
+            why_f = f"could not be evaluated ({ex})"
+        chk.ob("R-C14-1", "from_str:filter-comments", ok, "AST::from_str hands the parser the token stream without its comments, in order" if ok else
+               f"AST::from_str no longer filters Token::Comment out of the token vector: {why_f}", loc)
+        chk.ob("R-C14-1", "from_str:iterator-over-filtered", ok, "the parser iterates the filtered vector" if ok else "LexIterator::new is no longer built from the filtered tokens", loc)
     except AnchorError as e:
         chk.anchor_fail("R-C14-1", e)
     mentions = []
@@ -112,6 +133,8 @@ def run(chk, facts):
         if f["mod"].startswith("parse") and not f["mod"].startswith("parse::lex") and f.get("body") and not f.get("derived"):
             if f["name"] == "from_str" and f["mod"] == "parse":
                 continue
+            if f["mod"] == "parse" and f.get("impl_of") is None and f.get("vis", "") == "" and syn_owner(syn, f).endswith("::from_str"):
+                continue      # a private helper of from_str (the filtering itself), covered by the fold above
             for n in walk(f["body"]):
                 if (n.get("k") in ("path", "ppath", "ptstruct", "pstruct") and n.get("p", "").endswith("Token::Comment")):
                     mentions.append(f["qual"])
